@@ -28,12 +28,13 @@ type sessionResult struct {
 	counts   []int // return values of the successful Writes
 	maxHeld  int   // max plaintext accepted but not yet visible downstream (approximation)
 	afterOps []int // bytes accepted by the sink after each op
+	lateOK   bool  // Close/Write after Close failed without touching the destination
 }
 
 func runSession(ps []*party, tape []byte, ws [][]byte, plan []bool, armored bool) *sessionResult {
 	setTape(tape)
 	defer clearTape()
-	res := &sessionResult{sink: &planSink{plan: plan}}
+	res := &sessionResult{sink: &planSink{plan: plan}, lateOK: true}
 	var dst io.Writer = res.sink
 	var aw io.WriteCloser
 	if armored {
@@ -56,8 +57,14 @@ func runSession(ps []*party, tape []byte, ws [][]byte, plan []bool, armored bool
 			}
 			res.afterOps = append(res.afterOps, len(res.sink.acc))
 		}
-		res.oks = append(res.oks, w.Close() == nil)
+		cerr := w.Close()
+		res.oks = append(res.oks, cerr == nil)
 		res.afterOps = append(res.afterOps, len(res.sink.acc))
+		// a second Close (and a Write) after Close must fail and must not touch the destination
+		callsBefore, accBefore := res.sink.calls, len(res.sink.acc)
+		err2 := w.Close()
+		_, err3 := w.Write([]byte("late"))
+		res.lateOK = err2 != nil && err3 != nil && res.sink.calls == callsBefore && len(res.sink.acc) == accBefore
 	}
 	if aw != nil {
 		res.cok = aw.Close() == nil
@@ -313,6 +320,14 @@ func checkC12(c *Ctx) {
 			panic(err)
 		}
 		files = append(files, tf{fmt.Sprintf("valid-%d", n), f, sc.plain})
+		if n == 2*chunkSize {
+			t := append([]byte{}, f...)
+			t[len(t)-5] ^= 1 // the last of three chunks is damaged: the first two must still be released
+			files = append(files, tf{fmt.Sprintf("flip-last-chunk-%d", n), t, sc.plain})
+			t2 := append([]byte{}, f...)
+			t2[len(t2)-chunkSize-40] ^= 1
+			files = append(files, tf{fmt.Sprintf("flip-middle-chunk-%d", n), t2, sc.plain})
+		}
 		if n == chunkSize || n == 100 {
 			files = append(files, tf{fmt.Sprintf("trailing1-%d", n), append(append([]byte{}, f...), 'x'), sc.plain})
 			t := append([]byte{}, f...)
@@ -371,6 +386,15 @@ func checkC12(c *Ctx) {
 			io.CopyN(io.Discard, r, int64(chunkSize-1))
 		}
 		c.Oracle("decryption-reads-ahead-at-most-one-chunk", okAhead, "readahead", nil, "releasing a chunk consumed more than one further chunk of input")
+		// the same with a caller buffer of several chunks: one Read must not swallow several chunks of input
+		src2 := newSrc(f, nil, false, -1)
+		r2, err := age.Decrypt(src2, pty.id)
+		if err == nil {
+			big := make([]byte, 4*chunkSize)
+			n1, _ := r2.Read(big)
+			c.Oracle("decryption-reads-ahead-at-most-one-chunk", src2.taken <= hdr+2*(chunkSize+16)+4096+1 && n1 <= chunkSize, "readahead-large-buffer", map[string]int{"consumed": src2.taken, "released": n1},
+				fmt.Sprintf("a Read with a 256 KiB buffer consumed %d bytes of input to release %d", src2.taken, n1))
+		}
 		c.note("readahead", true)
 	}
 	c.sample(map[string]interface{}{"file": "valid-65536 + 1 trailing byte", "schedule": "all at once, EOF together with the last byte", "expected": "error (trailing data) under every schedule"})
@@ -381,9 +405,9 @@ func checkC13(c *Ctx) {
 	pty := x25519Party(c.rng.bytes(32))
 	ps := []*party{pty}
 	// ---- destination faults ----
-	sizes := []int{0, 10, chunkSize + 3}
+	sizes := []int{0, 10, chunkSize + 3, 2*chunkSize + 1}
 	if c.thorough() {
-		sizes = append(sizes, chunkSize, 2*chunkSize+1)
+		sizes = append(sizes, chunkSize)
 	}
 	for _, n := range sizes {
 		plain := c.rng.bytes(n)
@@ -398,6 +422,9 @@ func checkC13(c *Ctx) {
 				continue
 			}
 			for _, armored := range []bool{false, true} {
+				if n > 2*chunkSize && armored && !c.thorough() {
+					continue // quick: the three-chunk single Write only in binary
+				}
 				base := runSession(ps, tape, ws, nil, armored)
 				calls := base.sink.calls
 				idxs := []int{}
@@ -450,6 +477,7 @@ func checkC13(c *Ctx) {
 							}
 						}
 						c.Oracle("failed-writer-stays-failed", sticky, "writer-not-sticky", in, "after a failed operation a later Write/Close on the stream writer succeeded")
+						c.Oracle("closed-or-failed-writer-stays-so", r.lateOK, "writer-reusable-after-close", in, "a second Close or a Write after Close succeeded or wrote to the destination again")
 						c.note(fmt.Sprintf("d:%d:%d:%v:%d:%v", n, si, armored, idx, forever), true)
 						c.count("dest-fault")
 					}
